@@ -423,7 +423,7 @@ func sortedAfterObligations(w *World, src ndSource, oname string) []*Obligation 
 		x0 := st.vars[xobj]
 		et := elemType(x0.GoT)
 		esort := fv.th.sortOf(et)
-		hX := fv.declSliceHeap(esort)
+		hX := fv.declSliceHeapT(et)
 		type iter struct {
 			st       *State
 			appended string // condition: exactly one element appended
